@@ -174,7 +174,7 @@ def _param_baseline():
 def _rename_params(d):
     """Rules name parameters (`message`, `snd_una`, ...); a renamed parameter is not a behavioural change, so parameter
     names are reset to the committed baseline wherever the function still has the same arity."""
-    base = _param_baseline().get(d["crate"] + ":" + d["crate_type"], {})
+    base = _param_baseline().get(d["crate"] + ":" + d["crate_type"] + ":" + str(d.get("config")), {})
     n = 0
     for b in d["bodies"]:
         names = base.get(b["key"])
@@ -188,12 +188,14 @@ def _rename_params(d):
     return n
 
 
-def write_param_baseline(facts_dir, files):
+def write_param_baseline(dirs_files):
+    """dirs_files: [(facts_dir, files)] for every build configuration."""
     out = {}
-    for f in files:
+    for facts_dir, files in dirs_files:
+      for f in files:
         with open(os.path.join(facts_dir, f)) as fh:
             d = json.load(fh)
-        out[d["crate"] + ":" + d["crate_type"]] = {b["key"]: [b["locals"][i + 1][1] for i in range(b["argc"])] for b in d["bodies"] if b["argc"]}
+        out[d["crate"] + ":" + d["crate_type"] + ":" + str(d.get("config"))] = {b["key"]: [b["locals"][i + 1][1] for i in range(b["argc"])] for b in d["bodies"] if b["argc"]}
     with open(BASELINE_PARAMS, "w") as fh:
         json.dump(out, fh, indent=0, sort_keys=True)
     return out
